@@ -2,7 +2,7 @@
 (* Validation of the trusted Java primitives against vectors stated in the  *)
 (* standards, and of Bytes.tla bignum arithmetic on spot values.  Run by    *)
 (* setup_cmd; a failing ASSUME aborts TLC.                                   *)
-EXTENDS Bytes, Prim, HdwIO, TLC
+EXTENDS Bytes, Prim, HdwIO, Bip32, TLC
 
 H(s) == HexToBytes(s)
 A(s) == StrToUtf8(s)
@@ -67,5 +67,10 @@ ASSUME BnAddMod(H("fffffffffffffffffffffffffffffffebaaedce6af48a03bbfd25e8cd0364
 ASSUME BnNeg256(<<1>>) = Rep(32, 255)
 ASSUME HexLower(<<0, 171>>) = <<48, 48, 97, 98>>
 ASSUME NatDecCodes(1024) = <<49, 48, 50, 52>>
+\* the native search accelerator equals its TLA+ definition
+M0 == Master(Rep(32, 7))
+ASSUME \A w \in 0..3 : RareHardenedChild(M0.k, M0.c, 1, 700 * w, 700 * w + 699) = RareHardenedChildSpec(M0.k, M0.c, 1, 700 * w, 700 * w + 699)
+ASSUME RareHardenedChild(M0.k, M0.c, 1, 0, 5000) >= 0 /\ RareHardenedChild(M0.k, M0.c, 31, 0, 1000) = 0 - 1
+ASSUME LET i == RareHardenedChild(M0.k, M0.c, 2, 0, 400000) IN i >= 0 /\ SubSeq(CKD(M0, Comp(TRUE, BnFromNat(i))).k, 1, 2) = <<0, 0>>
 ASSUME PrintT("PrimTest: all vectors passed")
 =============================================================================
